@@ -220,8 +220,13 @@ def corpus_pair_requests(r, ncases, ntexts):
             ex = other_extra(c)
             for ti in range(ntexts):
                 text = C02.mutate_text(r, c.text, 0 if ti == 0 else r.range(1, 6))[:48]
+                if ti > 0 and r.chance(1, 4):      # multi-character graphemes around the fixture's own characters
+                    text = "".join(map(chr, grapheme_text(r, [ord(ch) for ch in c.text])))
                 if not text:
                     continue
+                ex_t = ex
+                if ti > 0 and r.chance(1, 3):      # a point / pixel size (AAT tracking, device tables)
+                    ex_t = [kv for kv in ex if not kv.startswith(("ptem=", "ppem="))] + size_extras(r)
                 cl = C02.input_clusters(r, len(text), 0 if ti == 0 else r.below(4))
                 flags = c.flags if ti == 0 else r.choice(C02.FLAGS)
                 d = c.dir if ti == 0 else r.choice(C02.DIRS)
@@ -231,8 +236,8 @@ def corpus_pair_requests(r, ncases, ntexts):
                 ranged = any(not (s == 0 and e == U32MAX) for _, _, s, e in feats)
                 name, f = make_map(r)
                 lv = r.below(3)
-                mk = lambda cl_, feats_, lv_: c.shape_line(fid, text=text, clusters=cl_, dir=d, level=lv_, flags=flags,
-                                                           feats=feats_, extra=ex)
+                mk = lambda cl_, feats_, lv_, ex=ex_t: c.shape_line(fid, text=text, clusters=cl_, dir=d, level=lv_, flags=flags,
+                                                                  feats=feats_, extra=ex)
                 # relabel pair at one level; the three levels on the original numbering
                 reqs.append(("relabel", name, f, cl, ranged, mk(cl, feats, lv), mk([f(x) for x in cl], map_feats(feats, f), lv)))
                 reqs.append(("levels", "mid-grapheme-ranges" if (ranged and not aligned) else "aligned", None, cl, None,
@@ -739,6 +744,260 @@ def aat_pair_requests(shim, r, nfonts, per_font):
     return groups
 
 
+
+# ------------------------------------------------------------------------------------------------
+# multi-character graphemes that are NOT base + combining mark, point / pixel sizes, AAT tracking (trak)
+#
+# `form_clusters` merges a grapheme into one cluster only at level 0; any later step that groups by cluster value where it
+# means "grapheme" (or the other way round) makes positions depend on the level.  Continuation characters that keep a glyph and
+# a position of their own to the end are the ones that show it: regional-indicator pairs, emoji ZWJ sequences, emoji
+# modifiers, halfwidth voiced marks, tag sequences, variation selectors, Hangul jamo, prepended concatenation marks.
+
+G_EMOJI = [0x1F469, 0x1F468, 0x1F4BB, 0x1F44B, 0x1F466, 0x2764, 0x1F3F3, 0x1F308, 0x1F9D1]
+G_MODS = list(range(0x1F3FB, 0x1F400))
+G_RI = list(range(0x1F1E6, 0x1F200))
+G_KANA = [0xFF76, 0xFF77, 0xFF8A, 0x30AB, 0x304B]
+G_MARKS = [0x301, 0x308, 0x323, 0x20DD]
+G_TAGS = list(range(0xE0061, 0xE007B))
+
+
+def grapheme_chunk(r, letters):
+    """one extended grapheme cluster (a list of code points) of a random kind"""
+    k = r.below(12)
+    if k == 0: return [r.choice(G_RI), r.choice(G_RI)]
+    if k == 1:
+        out = [r.choice(G_EMOJI)]
+        for _ in range(r.range(1, 2)):
+            out += [0x200D, r.choice(G_EMOJI)]
+        return out
+    if k == 2: return [r.choice(G_EMOJI), r.choice(G_MODS)]
+    if k == 3: return [r.choice(G_KANA), r.choice([0xFF9E, 0xFF9F])]
+    if k == 4: return [0x1F3F4] + [r.choice(G_TAGS) for _ in range(r.range(1, 3))] + [0xE007F]
+    if k == 5: return [r.choice(G_EMOJI + letters), 0xFE0F] + ([0x20E3] if r.chance(1, 3) else [])
+    if k == 6: return [r.choice(letters)] + [r.choice(G_MARKS) for _ in range(r.range(1, 2))]
+    if k == 7: return [r.choice([0x1100, 0x1112, 0x115F]), r.choice([0x1161, 0x1175, 0x1160])] + ([r.choice([0x11A8, 0x11C2])] if r.chance(1, 2) else [])
+    if k == 8: return [r.choice(letters), 0x200D, r.choice(letters)] if r.chance(1, 2) else [r.choice(letters), 0x034F]
+    if k == 9: return [r.choice(G_EMOJI), r.choice(G_MODS), 0x200D, r.choice(G_EMOJI), 0xFE0F]
+    return [r.choice(letters)]
+
+
+def grapheme_text(r, letters):
+    """1-4 graphemes: mostly multi-character ones of the kinds above, single letters of the font in between"""
+    out = []
+    for _ in range(r.range(1, 4)):
+        out += grapheme_chunk(r, letters) if r.chance(3, 4) else [r.choice(letters)]
+    return out[:14]
+
+
+def cp_grapheme_starts(cps):
+    """indices at which an extended grapheme cluster starts (python rendering of the rules that matter for the generated texts:
+    no break before Extend / ZWJ / SpacingMark / emoji modifier / tag / VS / halfwidth voiced marks, none after ZWJ before a
+    pictograph, regional indicators pair up, Hangul L V T)"""
+    import unicodedata
+    ok = [0]
+    ri_run = 0
+    for i in range(1, len(cps)):
+        c, p = cps[i], cps[i - 1]
+        ri_run = ri_run + 1 if 0x1F1E6 <= p <= 0x1F1FF else 0
+        cat = unicodedata.category(chr(c))
+        if cat in ("Mn", "Mc", "Me") or c in (0x200D, 0x200C, 0xFF9E, 0xFF9F) or 0x1F3FB <= c <= 0x1F3FF or 0xE0020 <= c <= 0xE007F \
+                or 0xFE00 <= c <= 0xFE0F:
+            continue
+        if p == 0x200D: continue           # conservative: never cut after a joiner
+        if 0x1F1E6 <= c <= 0x1F1FF and 0x1F1E6 <= p <= 0x1F1FF and ri_run % 2 == 1: continue
+        if 0x1160 <= c <= 0x11FF and 0x1100 <= p <= 0x11FF: continue
+        ok.append(i)
+    return ok
+
+
+def aligned_feats(r, cps, cl, tags):
+    """0-2 ranged features whose bounds are input cluster values at grapheme starts"""
+    starts = [i for i in cp_grapheme_starts(cps) if i == 0 or cl[i - 1] < cl[i]] or [0]
+    feats = []
+    for _ in range(r.below(3)):
+        i = r.choice(starts); j = r.choice([x for x in starts if x >= i] + [None])
+        s_ = cl[i]; e_ = U32MAX if j is None else cl[j]
+        if s_ == cl[0] and e_ == U32MAX: s_, e_ = 0, U32MAX
+        feats.append((r.choice(tags), r.choice([0, 1, 1, 2]), s_, e_))
+    return feats
+
+
+def size_extras(r):
+    """ptem= / ppem= of a shape request (the point size switches AAT tracking on)"""
+    ex = []
+    if r.chance(3, 4): ex.append("ptem=" + r.choice(["9", "12", "24", "72", "144", "0", "11.5", "1000"]))
+    if r.chance(1, 3): ex.append("ppem=" + r.choice(["8", "12", "100"]))
+    return ex
+
+
+def trak_table(r):
+    """AAT `trak`: horizontal and / or vertical track data, one of the tracks is the normal one (value 0.0)"""
+    import struct
+    def data(off):
+        sizes = sorted(r.sample([6, 9, 12, 18, 24, 72, 144, 288], r.range(2, 5)))
+        tracks = sorted(set([0] + [r.choice([-1, 1, 2]) for _ in range(r.below(3))]))
+        ns, nt = len(sizes), len(tracks)
+        size_off = off + 8 + 8 * nt
+        val_off = size_off + 4 * ns
+        recs = b"".join(struct.pack(">iHH", t << 16, 256 + k, val_off + 2 * ns * k) for k, t in enumerate(tracks))
+        vals = b"".join(struct.pack(">h", r.choice([-120, -60, -15, 7, 30, 85, 160, 333])) for _ in range(ns * nt))
+        return struct.pack(">HHI", nt, ns, size_off) + recs + b"".join(struct.pack(">i", z << 16) for z in sizes) + vals
+    k = r.below(4)
+    hor = data(12) if k != 1 else b""
+    ver = data(12 + len(hor)) if k in (1, 2) else b""
+    return struct.pack(">IHHHH", 0x00010000, 0, 12 if hor else 0, 12 + len(hor) if ver else 0, 0) + hor + ver
+
+
+TRAK_LETTERS = [0x41, 0x42, 0x43, 0x20, 0x644, 0x5D0]
+
+
+def trak_font(r):
+    """a font with a trak table and glyphs for every character the grapheme texts use; optionally kern / GPOS kerning / a GDEF
+    that classes the marks, so that tracking is applied after each kind of positioning"""
+    import fontbuild
+    cps = sorted(set(TRAK_LETTERS + G_EMOJI + G_MODS + G_RI[:6] + G_KANA + G_MARKS + G_TAGS[:8] + [0xE007F, 0x1F3F4, 0x200D, 0x200C,
+                     0xFE0F, 0x20E3, 0x034F, 0xFF9E, 0xFF9F, 0x1100, 0x1112, 0x115F, 0x1161, 0x1175, 0x1160, 0x11A8, 0x11C2]))
+    if r.chance(1, 3):
+        cps = [c for c in cps if not r.chance(1, 6)]       # some characters missing: .notdef / fallbacks
+    cmap = {c: i + 1 for i, c in enumerate(cps)}
+    ng = len(cps) + 1
+    rec = {"num_glyphs": ng, "cmap": cmap, "advances": [400 + 7 * g for g in range(ng)],
+           "vadvances": [900 + 3 * g for g in range(ng)] if r.chance(1, 2) else None,
+           "tables": {"trak": trak_table(r)}}
+    if rec["vadvances"] is None: del rec["vadvances"]
+    k = r.below(4)
+    gl = lambda: r.range(1, ng - 1)
+    if k == 1:
+        rec["kern"] = [{"pairs": [(gl(), gl(), r.range(-80, 80)) for _ in range(6)]}]
+    elif k == 2:
+        first = sorted(set(gl() for _ in range(4)))
+        rec["gpos"] = {"features": [{"tag": "kern", "lookups": [0]}],
+                       "lookups": [{"type": 2, "flag": 0, "subtables": [{"format": 1, "coverage": first, "pairsets": [
+                           [(s2, {"xAdvance": r.range(-70, 70)}, None) for s2 in sorted(set(gl() for _ in range(4)))] for _ in first]}]}]}
+    if r.chance(1, 2):
+        rec["gdef"] = {"classes": {cmap[c]: 3 for c in G_MARKS + [0xFF9E, 0xFF9F] if c in cmap and r.chance(3, 4)}}
+    return fontbuild.build(rec).hex()
+
+
+def grapheme_pair_requests(r, ncorpus, nsynth, per_font):
+    """the corpus TRAK.ttf, `nsynth` generated trak fonts and `ncorpus` corpus fonts (with the script / language / features of
+    one of their fixtures) x grapheme texts x point / pixel sizes: three levels, and one relabelling"""
+    import os
+    groups = []
+    fonts = []
+    trakttf = os.path.join(vlib.REPO, "tests", "fonts", "in-house", "TRAK.ttf")
+    if os.path.exists(trakttf):
+        fonts.append(("T0", [f"fontfile T0 {trakttf} 0"], [0x41, 0x42, 0x43], None, 3))
+    for k in range(nsynth):
+        fonts.append((f"S{k}", [f"font S{k} {trak_font(r)}"], TRAK_LETTERS, None, 1))
+    cg = corpus.font_groups(corpus.load())
+    for fid, reg, cs in r.sample(cg, ncorpus):
+        letters = sorted({ord(ch) for c in cs for ch in c.text})[:200]
+        fonts.append((fid, [reg], letters, cs, 1))
+    for fid, reg, letters, cs, weight in fonts:
+        reqs = []
+        for _ in range(per_font * weight):
+            cps = grapheme_text(r, letters)
+            text = "".join(map(chr, cps))
+            cl = C02.input_clusters(r, len(cps), r.choice([0, 0, 1, 2, 3]))
+            d = r.choice(["l", "l", "r", "t", "b", None])
+            flags = r.choice([0, 0, 0, 3, 8, 0x10])
+            feats = aligned_feats(r, cps, cl, ["trak", "kern", "liga", "mark", "ccmp", "smcp"])
+            if r.chance(1, 8): feats.append(("trak", 0, 0, U32MAX))
+            ex = size_extras(r)
+            if cs is None:
+                mk = lambda cl_, feats_, lv_: " ".join(["shape", fid, d or "-", "-", "-", str(flags), str(lv_),
+                                                         ",".join(f"{corpus.tag_hex(t)}:{v}:{x}:{y}" for t, v, x, y in feats_) or "-",
+                                                         "-", "-", ",".join(f"{c:x}:{q}" for c, q in zip(cps, cl_))] + ex)
+            else:
+                c = r.choice(cs)
+                # the fixture's global features; its ranged ones are numbered for the fixture's own text
+                base = [x for x in (explicit_feats(c) or []) if x[2] == 0 and x[3] == U32MAX]
+                exx = [kv for kv in other_extra(c) if not kv.startswith(("ptem=", "ppem="))] + ex
+                mk = lambda cl_, feats_, lv_, c=c, base=base, exx=exx: c.shape_line(fid, text=text, clusters=cl_, dir=d or c.dir, level=lv_,
+                                                                                      flags=flags, feats=base + feats_, extra=exx)
+            ranged = any(not (a == 0 and b == U32MAX) for _, _, a, b in feats)
+            name, f = make_map(r)
+            lv = r.below(3)
+            reqs.append(("relabel", name, f, cl, ranged, mk(cl, feats, lv), mk([f(x) for x in cl], map_feats(feats, f), lv)))
+            reqs.append(("levels", "aligned", None, cl, None, mk(cl, feats, 0), mk(cl, feats, 1), mk(cl, feats, 2)))
+        groups.append((reg, reqs))
+    return groups
+
+
+def trak_streams(ctx, shim, r, nfonts, per_font):
+    """AAT tracking alone (hook: hb_aat_layout_track on a bare buffer prepared by set_unicode_props + form_clusters at each of
+    the three levels).  Correspondence: the crate against the model `Trak.trackAll` the theorems C15_trak_opaque /
+    C15_trak_levels are about (the tracking amount, which the crate interpolates in floats, is read off a one-glyph probe and
+    handed to the model).  Oracle on the crate alone: the positions after tracking are the same at the three levels."""
+    import os
+    fonts = []
+    trakttf = os.path.join(vlib.REPO, "tests", "fonts", "in-house", "TRAK.ttf")
+    if os.path.exists(trakttf):
+        fonts.append(open(trakttf, "rb").read().hex())
+    fonts += [trak_font(r) for _ in range(nfonts)]
+    texts, preps = [], []
+    for fi, hexf in enumerate(fonts):
+        for _ in range(per_font):
+            cps = grapheme_text(r, TRAK_LETTERS)
+            cl = C02.input_clusters(r, len(cps), r.choice([0, 0, 1, 2, 3]))
+            ptem = r.choice(["9", "12", "24", "72", "144", "11.5", "1000", "0"])
+            d = r.choice(["l", "l", "r", "t", "b"])
+            on = [not r.chance(1, 6) for _ in cps]
+            # the mask is set per cluster range by set_masks: constant inside a grapheme for ranges aligned to graphemes
+            st = set(cp_grapheme_starts(cps))
+            for i in range(len(cps)):
+                if i not in st: on[i] = on[i - 1]
+            texts.append((fi, cps, cl, ptem, d, on))
+            for lv in (0, 1, 2):
+                preps.append(f"trak prep {lv} " + ",".join(f"{c:x}:{k}" for c, k in zip(cps, cl)))
+    pr = vlib.run_lines(shim, preps)
+    probes = sorted({(fi, ptem, d) for fi, _, _, ptem, d, _ in texts})
+    po = vlib.run_lines(shim, [f"trak apply {fonts[fi]} {ptem} {d} 0 0 0.0.1" for fi, ptem, d in probes])
+    amount = {}
+    for (fi, ptem, d), x in zip(probes, po):
+        v = [int(z) for z in x.split()[1].split(":")] if x.startswith("ok") else None
+        amount[(fi, ptem, d)] = None if v is None else (v[0] - 1000 if d in "lr" else v[1] - 1000)
+    lines, meta = [], []
+    for ti, (fi, cps, cl, ptem, d, on) in enumerate(texts):
+        t = amount[(fi, ptem, d)]
+        if t is None: continue
+        for lv in (0, 1, 2):
+            p = pr[3 * ti + lv]
+            if not p.startswith("ok"): continue
+            items = [f"{kc}.{1 if o else 0}" for kc, o in zip(p.split()[1].split(","), on)]
+            lines.append(f"trak apply {fonts[fi]} {ptem} {d} {lv} {t} " + ",".join(items))
+            meta.append((ti, lv, t))
+    def classify(ln, out):
+        q = ln.split()
+        return ["level:" + q[5], "dir:" + q[4], "amount:" + ("0" if q[6] == "0" else "nonzero"),
+                "multi-char-grapheme" if ".1." in q[7] else "single-char-graphemes"]
+    ctx.correspond("trak-apply", lines=lines, classify=classify)
+    outs = vlib.run_lines(shim, lines)
+    by_text = {}
+    for (ti, lv, t), ln, x in zip(meta, lines, outs):
+        by_text.setdefault(ti, {})[lv] = (ln, x, t)
+    bad = []
+    nontriv = 0
+    for ti, d3 in by_text.items():
+        if len(d3) < 3: continue
+        if d3[0][2] != 0 and ".1." in d3[1][0].split()[7]: nontriv += 1
+        if not (d3[0][1] == d3[1][1] == d3[2][1]):
+            bad.append((len(texts[ti][1]), ti, d3))
+    bad.sort(key=lambda z: z[0])
+    for _, ti, d3 in bad[:1]:
+        fi, cps, cl, ptem, d, on = texts[ti]
+        ctx.violation(f"AAT tracking depends on the cluster level ({len(bad)} texts): text {' '.join(f'{c:04X}' for c in cps)} clusters {cl} "
+                      f"ptem {ptem} dir {d} amount {d3[0][2]}: level 0 -> {d3[0][1]} | level 1 -> {d3[1][1]} | level 2 -> {d3[2][1]}",
+                      {"stage": "search", "stream": "trak-levels", "text": [f"{c:04X}" for c in cps], "clusters": cl, "ptem": ptem,
+                       "dir": d, "requests": [d3[lv][0] for lv in (0, 1, 2)], "observed": [d3[lv][1] for lv in (0, 1, 2)],
+                       "count": len(bad)})
+    ctx.note_search("trak-levels", len(by_text), nontriv, differences=len(bad),
+                    rule="TRAK.ttf + generated trak fonts x grapheme texts (see shape-levels/graphemes) x sizes x 4 directions; the "
+                         "buffer is prepared by the crate itself (set_unicode_props, form_clusters) at each level, trak bits constant "
+                         "per grapheme; hb_aat_layout_track through the hook: positions identical at the levels 0, 1, 2; non-trivial = "
+                         "non-zero tracking amount and a multi-character grapheme")
+
 def run(ctx):
     ctx.assumptions += [
         "theorems are about the Lean model of the buffer primitives (Buf.lean) and the cluster pipeline pieces (Cluster.lean); the tie "
@@ -763,6 +1022,17 @@ def run(ctx):
                             "0-2 tone marks per chunk) on 11 support variants (tone marks spacing or zero-width, with / without "
                             "U+25CC), direction l/r/t/guessed, flags",
                what_levels="the same structured Hangul requests")
+    eval_pairs(ctx, shim, grapheme_pair_requests(ctx.rng("graphemes"), ctx.budget(40, 300), ctx.budget(8, 60), ctx.budget(10, 40)),
+               gen="graphemes",
+               what_relabel="texts of 1-4 extended grapheme clusters (regional-indicator pairs, emoji ZWJ sequences, emoji modifiers, "
+                            "halfwidth voiced marks, tag sequences, variation selectors / keycaps, base + marks, Hangul jamo, joiners, "
+                            "single letters) on tests/fonts/in-house/TRAK.ttf, on generated fonts with an AAT trak table (horizontal "
+                            "and / or vertical tracks, 2-5 sizes, optionally kern / GPOS kern / GDEF marks / vmtx / missing glyphs) and "
+                            "on a sample of corpus fonts with the script / language / features of one of their fixtures; ptem= "
+                            "(9 .. 1000, 0, fractional) and ppem= drawn per request; 5 directions; 0-2 ranged features (trak, kern, "
+                            "liga, mark, ccmp, smcp) with bounds at grapheme starts, sometimes trak=0",
+               what_levels="the same grapheme requests")
+    trak_streams(ctx, shim, ctx.rng("trak"), ctx.budget(8, 80), ctx.budget(40, 150))
     morx_relabel(ctx, shim, ctx.rng("morx"), ctx.budget(4000, 60000))
     eval_pairs(ctx, shim, aat_pair_requests(shim, ctx.rng("aat"), ctx.budget(150, 2000), ctx.budget(12, 24)), gen="aat",
                what_relabel="generated AAT fonts with morx AND feat in which 2-4 OpenType tags switch subtables (non-contextual, "
@@ -782,6 +1052,11 @@ def replay(ctx, rp):
             print("request:", q); print("reply  :", x)
             p = C12.parse_pre(x); ks.append(None if p is None else [(c, t) for c, _, t in p])
         return 0 if ks[0] == ks[1] == ks[2] else 1
+    if rp.get("stream") == "trak-levels":
+        o = vlib.run_lines(shim, rp["requests"], nproc=1)
+        for lv, (q, x) in enumerate(zip(rp["requests"], o)):
+            print(f"level {lv}:", " ".join(q.split()[3:7]), q.split()[7], "->", x)
+        return 0 if o[0] == o[1] == o[2] else 1
     if rp.get("stream") == "prims-relabel":
         a, b = vlib.run_lines(shim, [rp["request"], rp["relabelled_request"]], nproc=1)
         print("request    :", rp["request"]); print("reply      :", a[:3000])
